@@ -387,6 +387,23 @@ def hostile_replay(tier, out):
     out.append({"name": "C11/bounded/clean-failure", "status": "discharged" if not other else "sat", "backend": "bounded-native",
                 "where": "hostile and noise inputs end in firmware text, ValueError or SyntaxError", "time": 0.0, "bounded": True,
                 "replay": {"cases": other[:3]}, "replay_confirmed": bool(other)})
+    # termination: constant expressions that would blow up an unbounded evaluator, each under a 20 s budget
+    big = [("big-pow", "from Reduino.Utils import sleep\nsleep(9**9**9)\n"), ("big-shift", "x = 1 << 10**9\n"),
+           ("pow-chain", "y = (((2**64)**64)**64)**64\n"), ("pow-in-arg", "from Reduino.Actuators import Led\nled = Led(13)\nled.blink(7**7**7**7)\n"),
+           ("deep-parens", "x = " + "(" * 80 + "1" + ")" * 80 + "\n"), ("long-sum", "x = " + " + ".join(["1"] * 400) + "\n")]
+    hung = []
+    for name, text in big:
+        t1 = time.time()
+        try:
+            rr = subprocess.run(["/venv/bin/python", "-c", HOSTILE, src, json.dumps([[name, text]])], capture_output=True, text=True, timeout=20)
+            one = json.loads(rr.stdout)[0] if rr.returncode == 0 else {"result": "CRASH:harness " + rr.stderr[-200:]}
+            if one["result"].startswith("CRASH"):
+                hung.append({"case": name, "result": one["result"], "source": text[:120]})
+        except subprocess.TimeoutExpired:
+            hung.append({"case": name, "result": "no result within 20 s", "source": text[:120]})
+    out.append({"name": "C11/bounded/terminates-promptly", "status": "discharged" if not hung else "sat", "backend": "bounded-native",
+                "where": f"{len(big)} scripts with explosive constant expressions are transpiled (or rejected) within 20 s each",
+                "time": 0.0, "bounded": True, "replay": {"cases": hung}, "replay_confirmed": bool(hung)})
     if known:
         out.append({"name": "C11/bounded/clean-failure/overflow-error", "status": "sat", "backend": "bounded-native",
                     "where": "a non-finite numeric constant reaches int() outside the evaluator guard", "time": 0.0, "bounded": True,
